@@ -5,4 +5,6 @@ from . import kit, ledger
 def run(ctx):
     res = ledger.run_ledger(ctx, "C01")
     kit.optimised_interpreter_probe(res, "ledger")
+    from . import c09
+    c09.side_branch_probe(ctx, res, ["wrong_key_sig", "missing_output", "dup_ref_across_txs", "spent_on_branch"], "C01")
     return res
